@@ -251,10 +251,11 @@ func TestCheck(t *testing.T) {
 	})
 	electionDuringOperation(run)
 	flushAllAtomicity(run)
+	halfCloseAfterBatch(run)
 	run.Set("exhaustive_alphabet_size", len(alpha))
 	run.Set("exhaustive_max_length", L)
 	run.Assume("content-validity of generated payloads is decided by the generator's class tag (calibrated against the schema), not re-derived by the model")
-	run.Finish("seeded random histories (8-40 ops; a few of 2000 in thorough) of ADD/REPLACE/DELETE over 5 tables x 3 NIs with 3-4 keys per table, rich payloads, cross-NI group refs, 4% content-invalid ops, interleaved flushes; 1 in 4 with forward references disallowed; plus EVERY sequence of up to 3 (quick) / 4 (thorough) operations over a 15-symbol alphabet (ADD with two payloads, REPLACE with two payloads, DELETE, for next-hop 1, group 1 and one IPv4 prefix) in both forward-reference modes, and over a second 15-symbol alphabet (next-hop and group of VRF1, an MPLS label of the default instance pointing at VRF1's group or - unnamed - at its own, an IPv6 prefix, a flush of VRF1, a flush of everything) - exhaustive for those bounded spaces; plus hand-over scripts over real Modify sessions (a primary leaves operations held, another session becomes primary with an equal or higher id and programs on; full state vs model after every batch); plus elections placed INSIDE a batch of the primary (by the post-change hook; Get must report exactly what was acknowledged as programmed) and histories with one concurrent Flush of all instances (the survivors must be a suffix of the sequentially acknowledged operations: the Flush is one point of the history). Non-trivial = history leaves entries or held operations; distinct = by full history text", 100, false)
+	run.Finish("seeded random histories (8-40 ops; a few of 2000 in thorough) of ADD/REPLACE/DELETE over 5 tables x 3 NIs with 3-4 keys per table, rich payloads, cross-NI group refs, 4% content-invalid ops, interleaved flushes; 1 in 4 with forward references disallowed; plus EVERY sequence of up to 3 (quick) / 4 (thorough) operations over a 15-symbol alphabet (ADD with two payloads, REPLACE with two payloads, DELETE, for next-hop 1, group 1 and one IPv4 prefix) in both forward-reference modes, and over a second 15-symbol alphabet (next-hop and group of VRF1, an MPLS label of the default instance pointing at VRF1's group or - unnamed - at its own, an IPv6 prefix, a flush of VRF1, a flush of everything) - exhaustive for those bounded spaces; plus hand-over scripts over real Modify sessions (a primary leaves operations held, another session becomes primary with an equal or higher id and programs on; full state vs model after every batch); plus elections placed INSIDE a batch of the primary (by the post-change hook; Get must report exactly what was acknowledged as programmed) and histories with one concurrent Flush of all instances (the survivors must be a suffix of the sequentially acknowledged operations: the Flush is one point of the history) and batches followed by an immediate half-close on a stream with slow writes (installed == acknowledged when the RPC has ended). Non-trivial = history leaves entries or held operations; distinct = by full history text", 100, false)
 }
 
 // alphabet: ADD (2 payloads) / REPLACE (2 payloads) / DELETE for each of NH 1, NHG 1 and one
